@@ -165,6 +165,22 @@ func streamBuildorder(g *core.G) {
 						text = "external-pkg"
 						t = -1
 					}
+					if t != -1 || text == "external-pkg" {
+						// a multiarch qualifier names the architecture whose package satisfies the
+						// relation, it does not restrict where the relation applies (:native is what
+						// cross-building sources write); build profiles do not restrict it either
+						if r.Chance(1, 3) {
+							q := r.Pick([]string{":native", ":any", ":" + arch, ":i386", ":armhf", ":mips64el", ":all"})
+							if i := strings.IndexAny(text, " "); i >= 0 {
+								text = text[:i] + q + text[i:]
+							} else {
+								text += q
+							}
+						}
+						if r.Chance(1, 6) {
+							text += r.Pick([]string{" <!nocheck>", " <cross>", " <!stage1> <!nodoc>"})
+						}
+					}
 					alts = append(alts, text)
 					if applicable && chosen == -1 {
 						chosen = t
@@ -268,7 +284,7 @@ func init() {
 		ID: "C19", PropsModule: "GoDebian.Props.C19",
 		Facts: []string{"fingerprint:control.OrderDSCForBuild", "fingerprint:control.ParseDsc", "fingerprint:dependency.Dependency.GetPossibilities", "fingerprint:control.decodeStructValueSlice"},
 		Streams: []core.Stream{{Name: "buildorder", Gen: streamBuildorder,
-			Domain: "random build-dependency graphs over 1-12 sources with 1-4 binaries each, acyclic (3/4) and possibly cyclic (1/4), relations of 1-3 alternatives with architecture restrictions ([arch], [!arch], [other]), version clauses, substvars and packages no source provides, spread over Build-Depends / -Arch / -Indep, rendered as multi-binary .dsc text (single-line and folded Binary and dependency fields) in shuffled order and parsed by the real ParseDsc; model vs OrderDSCForBuild (three runs each); law-order: graph-level oracle (permutation, every needed source earlier, cycle <=> error)"}},
+			Domain: "random build-dependency graphs over 1-12 sources with 1-4 binaries each, acyclic (3/4) and possibly cyclic (1/4), relations of 1-3 alternatives with architecture restrictions ([arch], [!arch], [other]), multiarch qualifiers (:native, :any, :<this arch>, :<other arch>), build profiles, version clauses, substvars and packages no source provides, spread over Build-Depends / -Arch / -Indep, rendered as multi-binary .dsc text (single-line and folded Binary and dependency fields) in shuffled order and parsed by the real ParseDsc; model vs OrderDSCForBuild (three runs each); law-order: graph-level oracle (permutation, every needed source earlier, cycle <=> error)"}},
 		Impl: buildOrderImpl, TrustedBase: tb,
 		Readable: func(op string, a []string) string {
 			return op + " arch=" + core.MustUnHex(a[0]) + " " + clipStr(strings.Join(a[1:], " "), 160)
